@@ -196,7 +196,14 @@ func (la *lockAnalysis) analyseFunc(fd *ast.FuncDecl, entryLvl int) {
 				}
 			}
 		}
-		if pg := la.paramGuardOf(callee); pg != nil && pg.muIdx < len(c.Args) {
+		if pg := la.paramGuardOf(callee); pg != nil && pg.muIdx < 0 {
+			// the helper locks the owner's mutex through an owner-typed parameter
+			for ti, use := range pg.tables {
+				if ti < len(c.Args) {
+					tableArg[ast.Unparen(c.Args[ti])] = use
+				}
+			}
+		} else if pg != nil && pg.muIdx < len(c.Args) {
 			// the mutex argument must be the owner's own mutex: &recv.mu
 			if u, ok := ast.Unparen(c.Args[pg.muIdx]).(*ast.UnaryExpr); ok && u.Op == token.AND {
 				if se, ok := ast.Unparen(u.X).(*ast.SelectorExpr); ok {
@@ -985,7 +992,17 @@ func (la *lockAnalysis) paramGuardOf(f *types.Func) *paramGuardSummary {
 			i++
 		}
 	}
-	if muObj == nil || len(tables) == 0 {
+	// the mutex may also be reached through a parameter that is the owner itself (vm *VM → vm.mu)
+	ownerLocks := false
+	if muObj == nil {
+		ast.Inspect(fd.Body, func(n ast.Node) bool {
+			if c, ok := n.(*ast.CallExpr); ok && la.mutexOp(c) != "" {
+				ownerLocks = true
+			}
+			return true
+		})
+	}
+	if (muObj == nil && !ownerLocks) || len(tables) == 0 {
 		return nil
 	}
 	pg := &paramGuardSummary{muIdx: muIdx, tables: map[int]*paramTableUse{}}
@@ -1038,7 +1055,7 @@ func (la *lockAnalysis) paramGuardOf(f *types.Func) *paramGuardSummary {
 		switch x := e.(type) {
 		case *ast.CallExpr:
 			if se, ok := ast.Unparen(x.Fun).(*ast.SelectorExpr); ok {
-				if id, ok := ast.Unparen(se.X).(*ast.Ident); ok && info.Uses[id] == muObj {
+				if id, ok := ast.Unparen(se.X).(*ast.Ident); ok && muObj != nil && info.Uses[id] == muObj {
 					switch se.Sel.Name {
 					case "Lock":
 						*s = 2
@@ -1046,6 +1063,23 @@ func (la *lockAnalysis) paramGuardOf(f *types.Func) *paramGuardSummary {
 						*s = 1
 					case "Unlock", "RUnlock":
 						*s = 0
+					}
+				}
+			}
+			switch la.mutexOp(x) {
+			case "Lock":
+				*s = 2
+			case "RLock":
+				*s = 1
+			case "Unlock", "RUnlock":
+				*s = 0
+			}
+			// read-only library views of the table, consumed under the lock: maps.Keys / maps.Values
+			if cal, ok := calleeOf(info, x).(*types.Func); ok && cal.Pkg() != nil && cal.Pkg().Path() == "maps" && len(x.Args) == 1 {
+				switch cal.Name() {
+				case "Keys", "Values", "All":
+					if aid, ok := ast.Unparen(x.Args[0]).(*ast.Ident); ok {
+						note(aid, false, *s)
 					}
 				}
 			}
